@@ -37,6 +37,8 @@ def keq1(a, b):
     num = (int, float)
     if isinstance(a, num) and isinstance(b, num):
         return a == b
+    if isinstance(a, datetime.datetime) and isinstance(b, datetime.datetime):
+        return a == b          # a pandas Timestamp is a datetime: the same instant is the same key
     if type(a) is type(b):
         return a == b
     return False
@@ -342,6 +344,8 @@ def keycell(rng, kind):
         return rng.choice([2 ** 53, 2 ** 53 + 1, 2 ** 53 + 2, float(2 ** 53), 5, 1577836800000000000, 1577836800000000001])     # distinct ids / epoch-ns stamps that round to one double
     if kind == 'dt':
         return rng.choice([{'$dt': '2020-01-01T00:00:00'}, {'$dt': '2020-01-02T00:00:00'}, None])
+    if kind == 'pdts':       # dates read from a DataFrame (pandas Timestamps) next to hand-typed datetimes
+        return rng.choice([{'$dt': '2020-01-01T00:00:00'}, {'$pdts': '2020-01-01T00:00:00'}, {'$pdts': '2020-01-02T00:00:00'}, {'$dt': '2020-01-02T00:00:00'}, {'$pdts': '2020-01-03T12:00:00'}])
     if kind == 'mixed':
         return rng.choice([None, 0, 1, 1.0, 2.5, {'$nan': rng.randrange(1000)}, {'$nan': 'np'}, 'x', 'y', 'aa', 'b', '', {'$dt': '2020-01-01T00:00:00'}, {'$dt': '2021-06-30T12:00:00'}])
     raise ValueError(kind)
@@ -349,7 +353,7 @@ def keycell(rng, kind):
 
 def gen_case(rng, maxrows):
     nk = rng.choice([0, 1, 1, 1, 2, 2, 3])
-    kinds = [rng.choice(['int', 'str', 'num', 'nan', 'none', 'dt', 'mixed', 'mixed', 'bigint', 'npfloat']) for _ in range(nk)]
+    kinds = [rng.choice(['int', 'str', 'num', 'nan', 'none', 'dt', 'mixed', 'mixed', 'bigint', 'npfloat', 'pdts']) for _ in range(nk)]
     nl = rng.choice([0, 1, 2, 3, 4, 5, 6, maxrows])
     nr = rng.choice([0, 1, 2, 3, 4, 5, 6, maxrows])
     style = rng.choice(['implicit', 'same', 'same', 'diff', 'diff', 'lfun', 'rfun'])
